@@ -1,11 +1,28 @@
 #!/bin/bash
-# Builds the framework offline from files on disk: the Coq development (full .vo build) and the Rust harness
-# (path deps on /repo/rust/*, so this compiles /repo's current working tree).
-set -e
+# Builds the framework offline from files on disk: the Coq theorems of every claimed property (full .vo
+# build) and the Rust harness binaries of every claimed property (path deps on /repo/rust/*, so this
+# compiles /repo's current working tree).
 cd "$(dirname "$0")"
 export CARGO_NET_OFFLINE=true
 mkdir -p .build out evidence/replays
 cp -f /repo/Cargo.lock harness/Cargo.lock.repo 2>/dev/null || true
-tools/coqbuild.sh 2>&1 | tail -5
-(cd harness && cargo build --offline --bins 2>&1 | tail -5)
+TARGETS=$(python3 - <<'PY'
+import json
+m=json.load(open('MANIFEST.json'))
+print(" ".join(f"theories/Props/{c['property_id']}.vo" for c in m['checks']))
+PY
+)
+BINS=$(python3 - <<'PY'
+import json,glob
+m=json.load(open('MANIFEST.json')); claimed={c['property_id'] for c in m['checks']}
+bins=set()
+for p in glob.glob('checks.d/C*.json'):
+    c=json.load(open(p))
+    if c['property_id'] in claimed:
+        for r in c.get('runs',[]): bins.add(r['bin'])
+print(" ".join(f"--bin {b}" for b in sorted(bins)))
+PY
+)
+tools/coqbuild.sh -k $TARGETS 2>&1 | tail -5
+(cd harness && cargo build --offline $BINS 2>&1 | tail -5)
 echo setup done
